@@ -1,6 +1,5 @@
 #!/bin/sh
-# Offline setup after a fresh restore: overlay build of /repo's working tree, then the whole Lean library.
+# Offline setup after a fresh restore: overlay build of /repo's working tree, translators
+# (lean/SkNet/Generated/*), then every module of the Lean library. Nothing is fetched.
 cd "$(dirname "$0")" || exit 2
-set -e
-/venv/bin/python tools/vlib/overlay.py > /dev/null
-cd lean && lake build 2>&1 | tail -5
+exec /venv/bin/python -u tools/vlib/gen_all.py
